@@ -213,7 +213,8 @@ class _CommonFile:
                     "username occurs multiple times in source file: %r",
                     key,
                 )
-                skipped += line
+                # NOTE: the duplicate line is dropped; keeping it as "skipped" text
+                #       would write the user out twice (and bring a deleted user back).
                 continue
 
             # flush buffer of skipped whitespace lines
